@@ -1,5 +1,162 @@
-(* C14 — placeholder while the proofs are being written *)
-From Coq Require Import List NArith.
-From Mant Require Import Model.KeyCred.
-Example C14_stub : ver_to_bytes 0 = [0; 0; 0; 0]%N.
-Proof. reflexivity. Qed.
+(* C14 — Key-credential blobs round-trip and their integrity hash detects tampering.
+   Statements only; proofs are in Proofs/C14Base.v, C14Codec.v, C14Proofs.v, C14Tamper.v.
+
+   Vocabulary.  Spec/C14.v: [cred] = what a credential is built from (version, RSA key size / exponent /
+   modulus / primes, device GUID, two tick counts); [cred_ok] = every field fits its type and the tick counts
+   are not 0 (0 means "now": NewDateTime reads the clock, outside the property); [fits] = the key material
+   can be described by the 16-bit entry length; [spec_blob] = the KEYCREDENTIALLINK_BLOB of MS-ADTS 2.2.20 for
+   it, [spec_tail] = the entries the key hash covers, [flip_bit b i] = b with bit i inverted.
+   Model/KeyCred.v: the Go functions.  Proofs/C14Proofs.v: [kc_build now c] = NewKeyCredential applied to
+   the version, ComputeKeyIdentifier(key material), the key, the device and NewDateTime of the two tick
+   counts, with the clock reading [now]; [kc_obs] = the fields of a KeyCredential other than the internal
+   RawBytes / CustomKeyInfo.RawBytesSize. *)
+From Coq Require Import List NArith ZArith Lia.
+From Mant Require Import Prim.R Prim.Bytes Prim.Dec Algo.SHA256 Model.Guid Model.WinTime Model.KeyCred Spec.C14
+  Proofs.C14Base Proofs.C14Codec Proofs.C14Proofs Proofs.C14Tamper.
+Import ListNotations.
+Open Scope N_scope.
+
+(* Round trip.  For every version (any 32-bit value: 0, 0x100, 0x200 and the others, which the code treats as
+   0x200), key size, exponent, modulus and primes of any length that fits an entry, device GUID and non-zero
+   tick counts, and whatever the clock shows when the credential is built (now) and parsed (now'):
+   the credential builds; ToBytes is exactly the MS-ADTS blob; it passes its own integrity check; FromBytes of
+   the blob succeeds and yields the same version, identifier, key hash, key material, usage, source, custom key
+   information, device id and time stamps; ToBytes of the parsed credential is the same blob; the parsed
+   credential passes the integrity check; and the fields are the ones the credential was built from. *)
+Theorem C14_roundtrip : forall now now' c,
+  cred_ok c -> fits c ->
+  exists k k',
+    kc_build now c = Ok k /\
+    kc_to_bytes k = Ok (spec_blob c) /\
+    check_integrity k = Ok (true, k) /\
+    kc_from_bytes now' zero_kc (spec_blob c) = Ok k' /\
+    kc_obs k' = kc_obs k /\
+    kc_to_bytes k' = Ok (spec_blob c) /\
+    check_integrity k' = Ok (true, k') /\
+    kc_obs k = (sVersion c, spec_identifier c, spec_key_hash c, rsa_of c, (1, [], 0), (1, 0), sDevice c,
+                dt_of (sLastLogon c), dt_of (sCreation c)).
+Proof. exact roundtrip. Qed.
+Print Assumptions C14_roundtrip.
+
+(* The only keys excluded above are those the format cannot express (key material above 65535 bytes, a
+   modulus of more than 524000 bits): ToBytes refuses them with an error instead of writing a wrapped length. *)
+Theorem C14_oversize_refused : forall now c,
+  cred_ok c -> ~ fits c -> exists k, kc_build now c = Ok k /\ kKeyHash k = [] /\ kc_to_bytes k = Err.
+Proof. exact oversize_refused. Qed.
+Print Assumptions C14_oversize_refused.
+
+(* Tampering.  For every serialised credential and EVERY bit position in the entries covered by the key hash:
+   if FromBytes + CheckIntegrity still accept the corrupted blob, then the bytes m' that were hashed for it
+   either collide with the original covered bytes under SHA-256 (same digest, different bytes) or contain their
+   own SHA-256 digest as a contiguous block.  The second case is the corruption of a length or type byte that
+   makes a later stretch of the covered bytes parse as a KeyHash entry: the stored hash is then taken from the
+   hashed bytes themselves, so acceptance needs a message that embeds its own digest.  Nothing is assumed about
+   SHA-256 (no injectivity); the statement DESIGN.md sketches (collision only) is this one without its second
+   disjunct and is neither provable nor refutable without such an assumption. *)
+Theorem C14_tamper : forall now c i,
+  cred_ok c -> fits c ->
+  8 * covered_offset <= i < 8 * lenN (spec_blob c) ->
+  kc_verify now (flip_bit (spec_blob c) i) = Ok true ->
+  exists m', kc_covered (spec_blob c) = Ok (spec_tail c) /\
+             kc_covered (flip_bit (spec_blob c) i) = Ok m' /\
+             ((sha256 m' = sha256 (spec_tail c) /\ m' <> spec_tail c) \/ infix (sha256 m') m').
+Proof. exact tamper. Qed.
+Print Assumptions C14_tamper.
+
+(* A flipped bit in the stored hash value itself is refused unconditionally. *)
+Theorem C14_tamper_hash : forall now c i,
+  cred_ok c -> fits c ->
+  8 * hash_offset <= i < 8 * covered_offset ->
+  kc_verify now (flip_bit (spec_blob c) i) = Ok false.
+Proof. exact tamper_hash. Qed.
+Print Assumptions C14_tamper_hash.
+
+(* The DN-with-binary string form B:<count>:<hex>:<dn> round-trips the distinguished name and the blob for
+   EVERY distinguished name (any bytes, colons included) and every binary value (shorter than 2^62 bytes, so
+   that the character count fits Go's int), and is the MS-ADTS form. *)
+Theorem C14_dn_roundtrip : forall dn bin,
+  wf_bytes bin -> lenN bin < 2 ^ 62 ->
+  dn_to_string dn bin = spec_dn_string dn bin /\ dn_parse (dn_to_string dn bin) = Ok (dn, bin).
+Proof. intros dn bin H1 H2. split; [apply dn_to_string_spec | now apply dn_roundtrip]. Qed.
+Print Assumptions C14_dn_roundtrip.
+
+(* BCRYPT_RSAKEY_BLOB on its own: all key sizes, exponents, moduli and primes (lengths below 2^32). *)
+Theorem C14_rsa_roundtrip : forall r, rsa_ok r -> rsa_from_bytes (rsa_to_bytes r) = Ok r.
+Proof. exact rsa_roundtrip. Qed.
+Print Assumptions C14_rsa_roundtrip.
+
+(* Key identifiers: hexadecimal for versions 0 and 0x100 (every byte string), base 64 otherwise (the code
+   re-pads with a single '=', which is right exactly when the length is 2 modulo 3 — SHA-256 digests are). *)
+Theorem C14_identifier_roundtrip : forall b v,
+  wf_bytes b -> (is_hex_version v = true \/ (length b mod 3 = 2)%nat) ->
+  id_to_binary (id_from_binary b v) v = Ok b.
+Proof. exact id_roundtrip. Qed.
+Print Assumptions C14_identifier_roundtrip.
+
+(* Totality: no input makes a decoding entry point panic (reused by C07). *)
+Theorem C14_total_ver_from_bytes : forall b, ver_from_bytes b <> Panic.
+Proof. exact ver_from_bytes_total. Qed.
+Print Assumptions C14_total_ver_from_bytes.
+Theorem C14_total_rsa_from_bytes : forall b, rsa_from_bytes b <> Panic.
+Proof. exact rsa_from_bytes_total. Qed.
+Print Assumptions C14_total_rsa_from_bytes.
+Theorem C14_total_cki_from_bytes : forall c b, cki_from_bytes c b <> Panic.
+Proof. exact cki_from_bytes_total. Qed.
+Print Assumptions C14_total_cki_from_bytes.
+Theorem C14_total_id_to_binary : forall s v, id_to_binary s v <> Panic.
+Proof. exact id_to_binary_total. Qed.
+Print Assumptions C14_total_id_to_binary.
+Theorem C14_total_kc_from_bytes : forall now k0 b, kc_from_bytes now k0 b <> Panic.
+Proof. exact kc_from_bytes_total. Qed.
+Print Assumptions C14_total_kc_from_bytes.
+Theorem C14_total_kc_parse_dn : forall now k0 dn b, kc_parse_dn now k0 dn b <> Panic.
+Proof. intros now k0 dn b. apply kc_from_bytes_total. Qed.
+Print Assumptions C14_total_kc_parse_dn.
+Theorem C14_total_kc_to_bytes : forall k, kc_to_bytes k <> Panic.
+Proof. exact kc_to_bytes_total. Qed.
+Print Assumptions C14_total_kc_to_bytes.
+Theorem C14_total_compute_key_hash : forall k, compute_key_hash k <> Panic.
+Proof. exact compute_key_hash_total. Qed.
+Print Assumptions C14_total_compute_key_hash.
+Theorem C14_total_check_integrity : forall k, check_integrity k <> Panic.
+Proof. exact check_integrity_total. Qed.
+Print Assumptions C14_total_check_integrity.
+Theorem C14_total_kc_verify : forall now b, kc_verify now b <> Panic.
+Proof. exact kc_verify_total. Qed.
+Print Assumptions C14_total_kc_verify.
+Theorem C14_total_dn_parse : forall b, dn_parse b <> Panic.
+Proof. exact dn_parse_total. Qed.
+Print Assumptions C14_total_dn_parse.
+
+(* Non-vacuity: a concrete credential meets the hypotheses, and the statements compute on it. *)
+Definition ex_cred : cred :=
+  mkCred 512 64 65537 [193; 2; 3; 4; 5; 6; 7; 9] [] [] (mkGuid 0x01020304 0x0506 0x0708 0x090a 0x0b0c0d0e0f10)
+         133500000000000000 133500000012345678.
+
+Example C14_hypotheses_satisfiable : cred_ok ex_cred /\ fits ex_cred.
+Proof.
+  unfold cred_ok, fits, guid_wf, ex_cred. cbn [sVersion sKeySize sExponent sModulus sPrime1 sPrime2 sDevice sLastLogon sCreation gA gB gC gD gE].
+  repeat split; try (vm_compute; reflexivity); try lia; try (repeat constructor; vm_compute; reflexivity).
+  vm_compute. discriminate.
+Qed.
+
+Example C14_roundtrip_example :
+  (let* k := kc_build (1, 1)%Z ex_cred in kc_to_bytes k) = Ok (spec_blob ex_cred) /\
+  kc_verify (1, 1)%Z (spec_blob ex_cred) = Ok true /\
+  lenN (spec_blob ex_cred) = 167.
+Proof. vm_compute. repeat split; reflexivity. Qed.
+
+(* bit 1 of byte 74 (the low byte of the key-material entry length) and bit 1 of byte 80 (the 'A' of "RSA1"):
+   inside the covered region; bit 3 of byte 50: inside the stored hash *)
+Example C14_tamper_example :
+  8 * covered_offset <= 593 < 8 * lenN (spec_blob ex_cred) /\
+  kc_verify (1, 1)%Z (flip_bit (spec_blob ex_cred) 593) = Err /\
+  kc_verify (1, 1)%Z (flip_bit (spec_blob ex_cred) 641) = Ok false /\
+  8 * hash_offset <= 403 < 8 * covered_offset /\
+  kc_verify (1, 1)%Z (flip_bit (spec_blob ex_cred) 403) = Ok false.
+Proof. vm_compute. repeat split; try reflexivity; discriminate. Qed.
+
+Example C14_dn_example :
+  dn_parse (dn_to_string [67; 78; 61; 97; 58; 98] [1; 171]) = Ok ([67; 78; 61; 97; 58; 98], [1; 171]) /\
+  dn_to_string [67; 78; 61; 97; 58; 98] [1; 171] = [66; 58; 52; 58; 48; 49; 97; 98; 58; 67; 78; 61; 97; 58; 98].
+Proof. vm_compute. split; reflexivity. Qed.
